@@ -35,12 +35,34 @@ def rerun_items(ctx):
     return f
 
 
+def overlap_shapes(ctx):
+    """deterministic overlaps: run B produces its first-step output while run A, started earlier on the same prepared
+    workflow, is still inside its second step; A's output reads both steps afterwards and must see A's values"""
+    def f(rng):
+        items = []
+        for delay_b, d1, d2 in ([(60, 20, 150)] if ctx.quick else [(60, 20, 150), (30, 5, 80), (100, 40, 200), (10, 0, 60)]):
+            wf = {'steps': {'first': {'kind': 'plugin', 'pstep': 'work', 'fields': {'input': tmap({'id': lit('first'), 's': ref('input.x')})}},
+                            'second': {'kind': 'plugin', 'pstep': 'work', 'fields': {'input': tmap({'id': lit('second'), 's': ref('input.x'),
+                                                                                                   'deps': tmap({'f': ref('steps.first.outputs.success.tok')})})}}},
+                  'outputs': {'success': tmap({'a': ref('steps.first.outputs.success.tok'), 'b': ref('steps.second.outputs.success.tok'),
+                                               'st': ref('steps.first.starting.started')})}}
+            script = {'first': {'exec': {'out': 'success', 'delay_ms': d1}}, 'second': {'exec': {'out': 'success', 'delay_ms': d2}}}
+            inp = {'x': 'x', 'n': 1, 'flag': True}
+            inputs = [dict(inp, x='runA'), dict(inp, x='runB'), dict(inp, x='runC')]
+            runs = [{'input': inputs[0], 'start_delay_ms': 0}, {'input': inputs[1], 'start_delay_ms': delay_b}, {'input': inputs[2], 'start_delay_ms': 2 * delay_b}]
+            items.append({'wf': wf, 'oc': {'first': okoc(), 'second': okoc()}, 'script': script, 'input': inp, 'inputs': inputs, 'schedule': None,
+                          'extra': {'runs': runs, 'overlap': True, 'timeout_ms': 30000}, 'want_override': {}, 'mode': 'overlap-staggered',
+                          'at': 'staggered %d/%d/%d' % (delay_b, d1, d2)})
+        return items
+    return f
+
+
 def run(ctx):
     prof = dict(max_steps=2, p_tag=0.0)
 
     def detail(f, it):
         return '%s [history %s]' % (f['detail'], it.get('mode', 'single'))
-    items, findings, stats = family.run_family_check(ctx, 'C14', n_quick=2, n_thorough=10, profile=prof, extra_items=rerun_items(ctx), detail_fn=detail)
+    items, findings, stats = family.run_family_check(ctx, 'C14', n_quick=2, n_thorough=10, profile=prof, extra_items=lambda rng: rerun_items(ctx)(rng) + overlap_shapes(ctx)(rng), detail_fn=detail)
     # in a rerun history, a run that observes foreign values or returns another result than the isolated meaning breaks C14
     for f in findings:
         it = items[f['item']]
